@@ -213,7 +213,7 @@ func reference2(pred string, a []*rt.Term) (ans [][]*rt.Term, ok bool) {
 			}
 			return filter(a, [][]*rt.Term{{a[0], name, rt.I(int64(ar))}}), true
 		}
-		if a[2].K == rt.Int && a[2].I >= 0 && a[2].I <= 4 && (a[1].K == rt.Atom || a[2].I == 0 && (a[1].K == rt.Int || a[1].K == rt.Float)) {
+		if a[2].K == rt.Int && a[2].I >= 0 && a[2].I <= 40 && (a[1].K == rt.Atom || a[2].I == 0 && (a[1].K == rt.Int || a[1].K == rt.Float)) {
 			if a[2].I == 0 {
 				return [][]*rt.Term{{a[1], a[1], a[2]}}, true
 			}
@@ -685,6 +685,14 @@ var alphabet = []rune{'a', 'b', 'é', '日', '😀', '\U0010FFFF', '\x7f'}
 
 func u(t *rapid.T, n int, l string) int { return int(rapid.Uint64().Draw(t, l) % uint64(n)) }
 
+// genArity: mostly 0-3, now and then around the sizes at which the engine changes its allocation path (8/9) or beyond.
+func genArity(t *rapid.T) int {
+	if u(t, 8, "wide") == 0 {
+		return []int{7, 8, 9, 10, 16, 17, 33}[u(t, 7, "widear")]
+	}
+	return u(t, 4, "ar")
+}
+
 func genRunes(t *rapid.T, max int) []rune {
 	n := u(t, max+1, "len")
 	rs := make([]rune, n)
@@ -756,7 +764,7 @@ func tuple(t *rapid.T, pred string) []*rt.Term {
 		}
 		return []*rt.Term{rt.A(string(r)), rt.I(int64(r))}
 	case "functor":
-		n := u(t, 4, "ar")
+		n := genArity(t)
 		name := []string{"f", "é", "[]", "."}[u(t, 4, "name")]
 		if n == 0 {
 			if u(t, 3, "num") == 0 {
@@ -770,7 +778,7 @@ func tuple(t *rapid.T, pred string) []*rt.Term {
 		}
 		return []*rt.Term{rt.C(name, args...), rt.A(name), rt.I(int64(n))}
 	case "arg":
-		n := 1 + u(t, 3, "ar")
+		n := 1 + genArity(t)
 		args := make([]*rt.Term, n)
 		for i := range args {
 			args[i] = genElem(t)
@@ -782,7 +790,7 @@ func tuple(t *rapid.T, pred string) []*rt.Term {
 		}
 		return []*rt.Term{rt.I(int64(k)), rt.C("g", args...), a}
 	case "=..":
-		n := u(t, 4, "ar")
+		n := genArity(t)
 		if n == 0 {
 			x := genElem(t)
 			if x.K == rt.Comp {
@@ -800,6 +808,9 @@ func tuple(t *rapid.T, pred string) []*rt.Term {
 		return []*rt.Term{rt.List(x, nil), rt.List(y, nil), rt.List(append(append([]*rt.Term{}, x...), y...), nil)}
 	case "length":
 		x := genList(t, 5)
+		if u(t, 8, "long") == 0 {
+			x = genList(t, 40)
+		}
 		return []*rt.Term{rt.List(x, nil), rt.I(int64(len(x)))}
 	case "between":
 		lo := edgeInts[u(t, len(edgeInts), "lo")]
